@@ -1,5 +1,305 @@
+(* C19 — property theorems only.  One theorem per clause of the property text, each closed
+   by [exact] of a lemma of Proofs.v / ProofsTS.v and followed by Print Assumptions, then
+   non-vacuity examples (concrete histories / schedules evaluated by vm_compute).
+
+   Vocabulary (Model.v):  a history is a list of  NewObservable b | DelObservable b |
+   NewObserver o b | DelObserver o | Notify b | Poll o ;  hist_valid h = every operation is
+   applied to a live object / a free slot (C++ lifetime rules);  run h = the heap after h;
+   step s (Poll o) = o->wasNotified();  h_view / h_pending / h_attached = the property text
+   read off the history alone (no stamps);  clears o b e = e is a poll, destruction or
+   re-creation of o, or the destruction of b;  r_uaf = the step went through a pointer to a
+   destroyed object. *)
 From Common Require Import Prelude.
+From Coq Require Import Sorted.
 From C19 Require Import Model Proofs ProofsTS.
 Local Open Scope N_scope.
-Example stub_example : hist_valid [NewObservable 0; NewObserver 0 0; Notify 0; Poll 0] = true.
+
+(* ------------------------------------------------------------------ observers *)
+
+(* wasNotified() returns exactly the "pending" bit of the history fold *)
+Theorem observer_spec : forall h o,
+  hist_valid h = true -> o_alive (obss (run h) o) = true ->
+  r_out (step (run h) (Poll o)) = OBool (h_pending h o).
+Proof. exact Proofs.poll_spec. Qed.
+Print Assumptions observer_spec.
+
+(* both directions of "exactly when": true iff the history ends with a notification of the
+   observable o is (still) attached to, followed by no poll / destruction / re-creation of o
+   and no destruction of that observable; false otherwise *)
+Theorem was_notified_exactly_when : forall h o,
+  hist_valid h = true -> o_alive (obss (run h) o) = true ->
+  exists r, r_out (step (run h) (Poll o)) = OBool r /\
+    (r = true <->
+     exists h1 b h2, h = h1 ++ Notify b :: h2 /\ h_attached h1 o = Some b /\
+                     forallb (fun e => negb (clears o b e)) h2 = true).
+Proof. exact Proofs.was_notified_iff. Qed.
+Print Assumptions was_notified_exactly_when.
+
+(* the fold's "attached to b" means: o and b are alive, o points to b and b lists o *)
+Theorem attached_means_alive : forall h o b,
+  hist_valid h = true -> h_attached h o = Some b ->
+  o_alive (obss (run h) o) = true /\ o_observee (obss (run h) o) = Some b /\
+  b_alive (obls (run h) b) = true /\ In o (b_regs (obls (run h) b)).
+Proof. exact Proofs.attached_alive. Qed.
+Print Assumptions attached_means_alive.
+
+(* the pending bit is the property text, as a statement about the history alone *)
+Theorem pending_is_the_text : forall o h,
+  h_pending h o = true <->
+  exists h1 b h2, h = h1 ++ Notify b :: h2 /\ h_attached h1 o = Some b /\
+                  forallb (fun e => negb (clears o b e)) h2 = true.
+Proof. exact Proofs.pending_text_iff. Qed.
+Print Assumptions pending_is_the_text.
+
+(* each notification is seen once: the poll after a poll answers false *)
+Theorem notification_seen_once : forall h o,
+  hist_valid h = true -> o_alive (obss (run h) o) = true ->
+  r_out (step (r_state (step (run h) (Poll o))) (Poll o)) = OBool false.
+Proof. exact Proofs.poll_once. Qed.
+Print Assumptions notification_seen_once.
+
+(* k+1 notifications between two polls coalesce into one true *)
+Theorem notifications_coalesce : forall h o b k,
+  hist_valid (h ++ repeat (Notify b) (S k)) = true -> h_attached h o = Some b ->
+  let s := run (h ++ repeat (Notify b) (S k)) in
+  r_out (step s (Poll o)) = OBool true /\
+  r_out (step (r_state (step s (Poll o))) (Poll o)) = OBool false.
+Proof. exact Proofs.coalesce. Qed.
+Print Assumptions notifications_coalesce.
+
+(* an observer created after any history (with any number of notifications) starts clean *)
+Theorem late_observer_starts_clean : forall h o b,
+  hist_valid (h ++ [NewObserver o b]) = true ->
+  o_alive (obss (run (h ++ [NewObserver o b])) o) = true /\
+  r_out (step (run (h ++ [NewObserver o b])) (Poll o)) = OBool false.
+Proof. exact Proofs.late_observer_clean. Qed.
+Print Assumptions late_observer_starts_clean.
+
+(* independence per observer: an event naming neither o nor o's observable (any other
+   observer's creation, poll or destruction; any other observable's notification or
+   destruction) leaves o alive and does not change what o's next poll answers *)
+Theorem observers_independent : forall h e o,
+  hist_valid (h ++ [e]) = true -> o_alive (obss (run h) o) = true ->
+  mentions o (h_attached h o) e = false ->
+  o_alive (obss (run (h ++ [e])) o) = true /\
+  r_out (step (run (h ++ [e])) (Poll o)) = r_out (step (run h) (Poll o)).
+Proof. exact Proofs.poll_indep. Qed.
+Print Assumptions observers_independent.
+
+(* a poll touches no other observer's record and no observable *)
+Theorem poll_touches_only_itself : forall s o x,
+  x <> o -> obss (r_state (step s (Poll o))) x = obss s x /\
+            obls (r_state (step s (Poll o))) = obls s.
+Proof. exact Proofs.poll_frame. Qed.
+Print Assumptions poll_touches_only_itself.
+
+(* after its observable is destroyed: the observer stays a live object with a null observee,
+   answers false, and a poll changes nothing — for every continuation that keeps o *)
+Theorem observer_orphan : forall h1 b h2 o,
+  hist_valid (h1 ++ DelObservable b :: h2) = true ->
+  h_attached h1 o = Some b ->
+  forallb (keeps_observer o) h2 = true ->
+  let s := run (h1 ++ DelObservable b :: h2) in
+  o_alive (obss s o) = true /\ o_observee (obss s o) = None /\
+  r_out (step s (Poll o)) = OBool false /\ r_state (step s (Poll o)) = s.
+Proof. exact Proofs.orphan_forever. Qed.
+Print Assumptions observer_orphan.
+
+(* nothing dangles, in either destruction order: no step of a valid history goes through a
+   pointer to a destroyed object ... *)
+Theorem no_use_after_free : forall h, hist_valid h = true -> uaf_from init h = false.
+Proof. exact Proofs.no_uaf. Qed.
+Print Assumptions no_use_after_free.
+
+(* ... and after every valid history each registered Observer* designates a live observer
+   that points back, each non-null observee a live observable that lists the observer *)
+Theorem no_dangling : forall h,
+  hist_valid h = true ->
+  (forall b o, b_alive (obls (run h) b) = true -> In o (b_regs (obls (run h) b)) ->
+               o_alive (obss (run h) o) = true /\ o_observee (obss (run h) o) = Some b) /\
+  (forall o b, o_alive (obss (run h) o) = true -> o_observee (obss (run h) o) = Some b ->
+               b_alive (obls (run h) b) = true /\ In o (b_regs (obls (run h) b))).
+Proof. exact Proofs.no_dangling. Qed.
+Print Assumptions no_dangling.
+
+(* ------------------------------------------------------------------ time stamps, one thread *)
+(* the stamps handed out during any history (valid or not) are strictly increasing in the
+   order handed out, hence pairwise distinct, and below the counter *)
+Theorem stamps_fresh : forall h,
+  StronglySorted N.lt (issued h) /\ NoDup (issued h) /\
+  Forall (fun v => v < next (run h)) (issued h).
+Proof. exact Proofs.stamps_fresh_all. Qed.
+Print Assumptions stamps_fresh.
+
+(* every stamp handed out later is larger than every stamp handed out before *)
+Theorem stamp_larger_than_all_earlier : forall h1 h2 u v,
+  In u (issued h1) -> In v (issued_from (run h1) h2) -> u < v.
+Proof. exact Proofs.stamp_fresh_vs_earlier. Qed.
+Print Assumptions stamp_larger_than_all_earlier.
+
+(* ------------------------------------------------------------------ time stamps, threads *)
+(* any number of threads, any programs, any schedule: all values obtained are pairwise
+   distinct (indeed increasing in the order of the atomic steps) *)
+Theorem timestamp_concurrent_distinct : forall progs sched,
+  NoDup (all_values (trun progs sched)).
+Proof. exact ProofsTS.ts_all_distinct. Qed.
+Print Assumptions timestamp_concurrent_distinct.
+
+(* each thread's values are strictly increasing in the order it obtained them *)
+Theorem timestamp_thread_increasing : forall progs sched t,
+  StronglySorted N.lt (thread_values (trun progs sched) t).
+Proof. exact ProofsTS.ts_thread_increasing. Qed.
+Print Assumptions timestamp_thread_increasing.
+
+(* the same, as a statement about any two positions *)
+Theorem timestamp_thread_pairwise : forall progs sched t i j d,
+  (i < j)%nat -> (j < length (thread_values (trun progs sched) t))%nat ->
+  nth i (thread_values (trun progs sched) t) d < nth j (thread_values (trun progs sched) t) d.
+Proof. exact ProofsTS.ts_thread_pairwise. Qed.
+Print Assumptions timestamp_thread_pairwise.
+
+(* a creation or renewal in any reachable state: the variable receives a value larger than
+   every value obtained so far by any thread (its own included) *)
+Theorem timestamp_fresh_or_renewed : forall progs sched t x rest,
+  let s := trun progs sched in
+  t_prog s t = MFetchAdd x :: rest ->
+  t_vars (tstep s t) t x = Some (t_g s) /\
+  Forall (fun v => v < t_g s) (all_values s) /\
+  all_values (tstep s t) = all_values s ++ [t_g s] /\
+  thread_values (tstep s t) t = thread_values s t ++ [t_g s].
+Proof. exact ProofsTS.ts_fresh_larger. Qed.
+Print Assumptions timestamp_fresh_or_renewed.
+
+(* copies (copy/move construction's load, assignment) carry the source's value, take nothing
+   from the counter and change nobody else's variable *)
+Theorem timestamp_copy_carries_source : forall s t x t' y rest,
+  t_prog s t = MCopy x t' y :: rest ->
+  t_vars (tstep s t) t x = t_vars s t' y /\ all_values (tstep s t) = all_values s /\
+  t_g (tstep s t) = t_g s /\
+  (forall t0 x0, (t0, x0) <> (t, x) -> t_vars (tstep s t) t0 x0 = t_vars s t0 x0).
+Proof. exact ProofsTS.ts_copy_carries. Qed.
+Print Assumptions timestamp_copy_carries_source.
+
+(* every value held by any variable of any thread was handed out by the counter *)
+Theorem timestamp_values_are_issued : forall progs sched t x v,
+  t_vars (trun progs sched) t x = Some v -> In v (all_values (trun progs sched)).
+Proof. exact ProofsTS.ts_vars_issued. Qed.
+Print Assumptions timestamp_values_are_issued.
+
+(* no value is skipped or reused: the counter equals the number of values handed out *)
+Theorem timestamp_counter_exact : forall progs sched,
+  t_g (trun progs sched) = N.of_nat (length (all_values (trun progs sched))).
+Proof. exact ProofsTS.ts_counter. Qed.
+Print Assumptions timestamp_counter_exact.
+
+(* ================================================================== non-vacuity *)
+Definition outs (h : list op) : list out :=
+  (fix go (s : state) (h : list op) : list out :=
+     match h with [] => [] | e :: h' => r_out (step s e) :: go (r_state (step s e)) h' end) init h.
+
+(* the unit-test scenario, plus coalescing: two observers, two notifications, polled twice *)
+Example ex_two_observers :
+  let h := [NewObservable 0; NewObserver 0 0; NewObserver 1 0; Notify 0; Notify 0;
+            Poll 0; Poll 0; Poll 1; Poll 1] in
+  hist_valid h = true /\
+  outs h = [OUnit; OUnit; OUnit; OUnit; OUnit; OBool true; OBool false; OBool true; OBool false].
+Proof. vm_compute. split; reflexivity. Qed.
+
+(* hypotheses of was_notified_exactly_when are satisfiable with answer true and with answer false *)
+Example ex_exactly_when_true :
+  let h := [NewObservable 0; NewObserver 0 0; Notify 0; NewObservable 1; Poll 0; Notify 0; Notify 1] in
+  hist_valid h = true /\ o_alive (obss (run h) 0) = true /\
+  r_out (step (run h) (Poll 0)) = OBool true /\
+  h_attached [NewObservable 0; NewObserver 0 0; Notify 0; NewObservable 1; Poll 0] 0 = Some 0 /\
+  forallb (fun e => negb (clears 0 0 e)) [Notify 1] = true.
+Proof. vm_compute. repeat split; reflexivity. Qed.
+
+Example ex_exactly_when_false :
+  let h := [NewObservable 0; NewObserver 0 0; Notify 0; Poll 0; NewObservable 1; Notify 1] in
+  hist_valid h = true /\ o_alive (obss (run h) 0) = true /\
+  r_out (step (run h) (Poll 0)) = OBool false /\ h_pending h 0 = false.
+Proof. vm_compute. repeat split; reflexivity. Qed.
+
+(* coalescing: three notifications, one true *)
+Example ex_coalesce :
+  let h := [NewObservable 0; NewObserver 0 0] in
+  hist_valid (h ++ repeat (Notify 0) 3) = true /\ h_attached h 0 = Some 0 /\
+  outs (h ++ repeat (Notify 0) 3 ++ [Poll 0; Poll 0]) =
+    [OUnit; OUnit; OUnit; OUnit; OUnit; OBool true; OBool false].
+Proof. vm_compute. repeat split; reflexivity. Qed.
+
+(* an observer created after a notification starts clean while the older one sees it *)
+Example ex_late_observer :
+  let h := [NewObservable 0; NewObserver 0 0; Notify 0] in
+  hist_valid (h ++ [NewObserver 1 0]) = true /\
+  outs (h ++ [NewObserver 1 0; Poll 1; Poll 0]) = [OUnit; OUnit; OUnit; OUnit; OBool false; OBool true].
+Proof. vm_compute. split; reflexivity. Qed.
+
+(* independence: observer 1 polls, observable 1 notifies and dies, observer 2 comes and goes —
+   observer 0 (attached to observable 0) still answers true once *)
+Example ex_independent :
+  let h := [NewObservable 0; NewObservable 1; NewObserver 0 0; NewObserver 1 0; Notify 0] in
+  let es := [Poll 1; Notify 1; NewObserver 2 1; DelObserver 2; DelObservable 1; DelObserver 1] in
+  hist_valid (h ++ es) = true /\
+  forallb (fun e => negb (mentions 0 (Some 0) e)) es = true /\
+  r_out (step (run h) (Poll 0)) = OBool true /\
+  r_out (step (run (h ++ es)) (Poll 0)) = OBool true.
+Proof. vm_compute. repeat split; reflexivity. Qed.
+
+(* both destruction orders.  Observable first: the observer is orphaned, answers false (even though a
+   notification was pending), and its later destruction touches nothing freed *)
+Example ex_observable_destroyed_first :
+  let h := [NewObservable 0; NewObserver 0 0; NewObserver 1 0; Notify 0; DelObservable 0;
+            Poll 0; NewObservable 0; Notify 0; Poll 0; Poll 1; DelObserver 0; DelObserver 1; DelObservable 0] in
+  hist_valid h = true /\ uaf_from init h = false /\
+  outs h = [OUnit; OUnit; OUnit; OUnit; OUnit; OBool false; OUnit; OUnit; OBool false; OBool false;
+            OUnit; OUnit; OUnit].
+Proof. vm_compute. repeat split; reflexivity. Qed.
+
+(* observer first: it unregisters, the observable's destructor then visits only the survivor *)
+Example ex_observer_destroyed_first :
+  let h := [NewObservable 0; NewObserver 0 0; NewObserver 1 0; DelObserver 0; Notify 0;
+            DelObservable 0; Poll 1; DelObserver 1] in
+  hist_valid h = true /\ uaf_from init h = false /\
+  b_regs (obls (run [NewObservable 0; NewObserver 0 0; NewObserver 1 0; DelObserver 0]) 0) = [1] /\
+  outs h = [OUnit; OUnit; OUnit; OUnit; OUnit; OUnit; OBool false; OUnit].
+Proof. vm_compute. repeat split; reflexivity. Qed.
+
+(* the use-after-free flag is not constantly false: an Observable destructor that did not null
+   observee would lead here — a state in which observer 0 still points to the destroyed observable 0 *)
+Example ex_uaf_flag_can_fire :
+  let stale := mkState 2 (fun _ => mkObl false 0 [0])
+                       (fun o => if o =? 0 then mkObs true 1 (Some 0) else mkObs false 0 None) in
+  r_uaf (step stale (Poll 0)) = true /\ r_uaf (step stale (DelObserver 0)) = true.
+Proof. vm_compute. split; reflexivity. Qed.
+
+(* hist_valid is not constantly true *)
+Example ex_invalid_history : hist_valid [NewObservable 0; DelObservable 0; Notify 0] = false.
 Proof. vm_compute. reflexivity. Qed.
+
+(* stamps: the history above hands out 0,1,2,... in order *)
+Example ex_stamps :
+  issued [NewObservable 0; NewObserver 0 0; Notify 0; Poll 0; Poll 0; Notify 0; Poll 0] = [0; 1; 2; 3; 4; 5].
+Proof. vm_compute. reflexivity. Qed.
+
+(* three threads: creations, a renewal, a copy construction (own fetch-add first, then the load)
+   and an assignment, under an interleaved schedule *)
+Example ex_threads :
+  let progs := prog_of [(0, compile [IFresh 0; IRenew 0; IFresh 1]);
+                        (1, compile [IFresh 0; ICopyCtor 1 0 0; IRenew 0]);
+                        (2, compile [IFresh 0; IAssign 0 1 1])] in
+  let s := trun progs [0; 1; 2; 1; 0; 1; 2; 0; 1] in
+  all_values s = [0; 1; 2; 3; 4; 5; 6] /\
+  thread_values s 0 = [0; 4; 5] /\ thread_values s 1 = [1; 3; 6] /\ thread_values s 2 = [2] /\
+  t_vars s 1 1 = Some 4 /\ t_vars s 2 0 = Some 4 /\ t_vars s 0 0 = Some 4 /\ t_g s = 7.
+Proof. vm_compute. repeat split; reflexivity. Qed.
+
+(* the same programs under another schedule give other values — still distinct and increasing *)
+Example ex_threads_other_schedule :
+  let progs := prog_of [(0, compile [IFresh 0; IRenew 0; IFresh 1]);
+                        (1, compile [IFresh 0; ICopyCtor 1 0 0; IRenew 0]);
+                        (2, compile [IFresh 0; IAssign 0 1 1])] in
+  let s := trun progs [2; 2; 1; 1; 1; 1; 0; 0; 0] in
+  thread_values s 0 = [4; 5; 6] /\ thread_values s 1 = [1; 2; 3] /\ thread_values s 2 = [0] /\
+  t_vars s 2 0 = None /\ t_vars s 1 1 = None.
+Proof. vm_compute. repeat split; reflexivity. Qed.
